@@ -7,6 +7,7 @@
 package jsonschema
 
 import (
+	"encoding/json"
 	"fmt"
 	"log/slog"
 	"maps"
@@ -64,6 +65,7 @@ type ForOptions struct {
 //   - Some types in the standard library that implement json.Marshaler
 //     translate to schemas that match the values to which they marshal.
 //     For example, [time.Time] translates to the schema for strings.
+//     Likewise [json.Number] translates to the schema for numbers.
 //
 // For will return an error if there is a cycle in the types.
 //
@@ -508,6 +510,8 @@ func init() {
 	}
 	initialSchemaMap[reflect.TypeFor[big.Rat]()] = ss
 	initialSchemaMap[reflect.TypeFor[big.Float]()] = ss
+	// A json.Number is a string that encoding/json writes, and reads, as a number.
+	initialSchemaMap[reflect.TypeFor[json.Number]()] = &Schema{Type: "number"}
 }
 
 // Disallow jsonschema tag values beginning "WORD=", for future expansion.
